@@ -5,6 +5,7 @@ go 1.23.0
 require (
 	go.opentelemetry.io/collector/component v1.30.0
 	go.opentelemetry.io/collector/component/componentstatus v0.124.0
+	go.opentelemetry.io/collector/internal/sharedcomponent v0.0.0
 	go.opentelemetry.io/collector/otelcol v0.124.0
 	go.opentelemetry.io/collector/service v0.124.0
 )
@@ -103,6 +104,7 @@ replace (
 	go.opentelemetry.io/collector/otelcol/otelcoltest => /repo/otelcol/otelcoltest
 	go.opentelemetry.io/collector/pdata => /repo/pdata
 	go.opentelemetry.io/collector/pdata/pprofile => /repo/pdata/pprofile
+	go.opentelemetry.io/collector/pdata/testdata => /repo/pdata/testdata
 	go.opentelemetry.io/collector/pipeline => /repo/pipeline
 	go.opentelemetry.io/collector/pipeline/xpipeline => /repo/pipeline/xpipeline
 	go.opentelemetry.io/collector/processor => /repo/processor
